@@ -84,7 +84,7 @@ class Check:
         return o
 
     # -- identity obligations (poly-NF) ---------------------------------------------------------------
-    def eq(self, name, lhs, rhs=0, *, fn=None, goal=None, assumptions=(), replay=None, ranges=None):
+    def eq(self, name, lhs, rhs=0, *, fn=None, goal=None, assumptions=(), replay=None, ranges=None, log_additive=False):
         """obligation: lhs == rhs identically (under positivity assumptions used only for ln-splitting)."""
         t0 = time.time()
         d = T.lift(lhs) - T.lift(rhs) if not _is_zero(rhs) else T.lift(lhs)
@@ -93,9 +93,12 @@ class Check:
         if wit is not None:
             return self.record(name, "refuted", "mp-falsify", time.time() - t0, fn, goal,
                                detail=f"lhs - rhs = {wit['residual']} (relative {wit['relative']}) at {wit['env']}", witness=wit, replay=replay)
-        # 2. exact proof
+        # 2. exact proof (within the per-obligation limit and the per-check budget)
+        if self.backend_time.get("poly-NF", 0.0) > NF_BUDGET[0]:
+            return self.record(name, "undischarged", "poly-NF", 0.0, fn, goal, f"per-check normal-form budget of {NF_BUDGET[0]} s exhausted", replay=replay)
         try:
             ctx = P.NFContext(assumptions, prover=smt.prove if assumptions else None)
+            ctx.log_additive = log_additive
             with time_limit(NF_TIMEOUT[0]):
                 ok, res = P.prove_zero(d, ctx)
         except TimeoutError:
@@ -152,6 +155,22 @@ class Check:
     def error(self, name, detail):
         return self.record(name, "error", "checker", 0.0, None, None, detail)
 
+    def run_paths(self, name, thunk, assumptions=(), fn=None, replay=None, goal="no unexpected exception"):
+        """Execute repository code under path exploration (A4).  Returns [(tag, pc, value)] for the feasible paths that
+        return normally; an exception escaping the code on a feasible path is recorded as a failed obligation."""
+        from .explore import explore
+
+        out = []
+        paths = explore(thunk, list(assumptions))
+        for k, pr in enumerate(paths):
+            tag = name if len(paths) == 1 else f"{name}.path{k}"
+            if pr.exc is not None:
+                self.fail(f"{tag}.no_exception", f"{type(pr.exc).__name__}: {pr.exc}", fn=fn, goal=goal, replay=replay)
+                continue
+            out.append((tag, pr.pc, pr.value))
+        self.extra["paths_explored"] = self.extra.get("paths_explored", 0) + len(paths)
+        return out
+
     # -- finish ---------------------------------------------------------------------------------------
     def finish(self):
         from . import hook, vnp
@@ -195,6 +214,7 @@ class Check:
             lines.append(f"KNOWN-FINDING: property={self.pid} {hit.get('what')}")
         exit_code = 0
         reported = 0
+        replay_cache = {}
         for o in violations:
             path = os.path.join(OUT, "replays", f"{self.pid}_{_safe(o['name'])}.json")
             rep = dict(property=self.pid, obligation=o["name"], function=o.get("fn"), verdict=o["verdict"], backend=o["backend"],
@@ -212,7 +232,10 @@ class Check:
                 try:
                     from .replay import run_replay
 
-                    reproduced, rdetail = run_replay(o["replay"])
+                    key = hash(o["replay"].get("script"))
+                    if key not in replay_cache:
+                        replay_cache[key] = run_replay(o["replay"]) if len(replay_cache) < 12 else (None, "replay skipped: more than 12 distinct replay scripts in one run")
+                    reproduced, rdetail = replay_cache[key]
                     rep["native_observation"] = rdetail
                     rep["reproduced"] = reproduced
                 except Exception as e:  # replay machinery failure must not hide the violation
@@ -318,7 +341,8 @@ class Check:
         return exit_code
 
 
-NF_TIMEOUT = [int(os.environ.get("PYVC_NF_TIMEOUT", "180"))]
+NF_TIMEOUT = [int(os.environ.get("PYVC_NF_TIMEOUT", "90"))]
+NF_BUDGET = [int(os.environ.get("PYVC_NF_BUDGET", "1200"))]
 
 
 class time_limit:
